@@ -258,6 +258,9 @@
 
 
 // Core functionality
+#[cfg(selen_verif)]
+#[doc(hidden)]
+pub mod verif_hooks;
 pub mod core;
 #[doc(hidden)]
 pub mod utils;
